@@ -31,7 +31,10 @@ REQUIRED = ["entries_injective", "einv_fresh", "bit_set_get", "bit_total", "serv
             # validAt (NutsProofs.Props.C11ValidAt)
             "revoked_whatever_valid_at", "received_revocation_refused_at_every_valid_at", "revoked_forever_network_at_every_valid_at",
             # base URL changes (NutsProofs.Props.C11Rebase)
-            "slots_unique_across_url_changes", "entry_update_independent_of_base", "fact_entry_update_key"]
+            "slots_unique_across_url_changes", "entry_update_independent_of_base", "fact_entry_update_key",
+            # credentialStatus syntax check in front of the revocation logic (NutsProofs.Props.C11CredStatus)
+            "validated_credential_entries_wellformed", "verify_wire_relevant_entries_have_index", "malformed_status_refused_before_revocation_logic",
+            "fact_default_validator_chain", "fact_validate_credential_status_chain"]
 
 ENTRY_RE = re.compile(r"(n\d+/\S+/\d+) (\S+) wf=(\w+)")
 
@@ -402,6 +405,27 @@ def voracle(ops, impl):
                 if line != "vverify err:validation":
                     report("C11:nuts-validator-accepts-foreign-id-prefix", f"{line} for {ops[i][:300]}", i)
                 continue
+            # the validator runs first: a malformed StatusList2021Entry (or a missing context) is refused before the revocation
+            # store / status lists are consulted — whatever the store says
+            malformed = None
+            for st in op.get("statuses") or []:
+                mal = st.get("mal", "")
+                if mal == "othertype":
+                    continue
+                n = ref_atoi(st.get("idx", ""))
+                if mal in ("noid", "idislist", "notype", "nopurpose", "badurl") or n is None or n < 0 or op.get("noslctx"):
+                    malformed = st
+                    break
+            if op.get("statuses"):
+                stats["verify-with-status-entries"] += 1
+            if malformed is not None:
+                stats["verify-with-malformed-status-entry"] += 1
+                if line != "vverify err:validation:status":
+                    report("C11:malformed-credential-status-reaches-revocation-logic", f"{malformed} noslctx={op.get('noslctx', False)}: {line}", i)
+                continue
+            if line == "vverify err:validation:status":
+                report("C11:wellformed-credential-status-refused", f"{ops[i][:300]}: {line}", i)
+                continue
             if op.get("storefault"):
                 stats["verify-with-store-read-fault"] += 1
                 if line == "vverify ok":
@@ -648,7 +672,7 @@ def run_verifier_harness(ctx):
 
 def run(ctx):
     facts = ctx.facts()
-    thms = ctx.build_and_audit(["NutsProofs.Props.C11", "NutsProofs.Props.C11Wire", "NutsProofs.Props.C11ValidAt", "NutsProofs.Props.C11Rebase"])
+    thms = ctx.build_and_audit(["NutsProofs.Props.C11", "NutsProofs.Props.C11Wire", "NutsProofs.Props.C11ValidAt", "NutsProofs.Props.C11Rebase", "NutsProofs.Props.C11CredStatus"])
     for r in REQUIRED:
         if not any(t.endswith("Props." + r) for t in thms):
             ctx.oblige("thm-present:" + r, False, "theorem missing or its module does not build")
